@@ -18,10 +18,11 @@ Step(c) == last' = c /\ hist' = Append(hist, c) /\ steps' = steps + 1
 Room == steps < MaxSteps
 Keep == UNCHANGED <<dtype, how>>
 
-\* `bad` = position (1-based) of a value of ANOTHER type inside the vector, 0 = none: such a vector is rejected as a whole
+\* `bad` = position (1-based) of a value of ANOTHER type inside the vector (0 = none); 10 + p = every value from position p
+\* on has the other type: such a vector is rejected as a whole
 Assign(s, bad) ==
   LET v == [s |-> s, bad |-> bad, x |-> 0] IN
-  /\ Room /\ bad \in 0..Len(s) /\ Keep
+  /\ Room /\ (bad \in 0..Len(s) \/ (bad > 10 /\ bad - 10 \in 2..Len(s))) /\ Keep
   /\ IF bad > 0 THEN UNCHANGED <<vals, unit, unc, def>> /\ Step(Call("Assign", v, "reject"))
      ELSE vals' = s /\ UNCHANGED <<unit, unc, def>> /\ Step(Call("Assign", v, "ok"))
 Clear == /\ Room /\ Keep /\ vals' = <<>> /\ UNCHANGED <<unit, unc, def>> /\ Step(Call("Clear", [s |-> <<>>, bad |-> 0, x |-> 0], "ok"))
@@ -39,7 +40,7 @@ Init == /\ dtype \in Types /\ how \in {"dtype", "value", "values"}
         /\ vals = (IF how = "dtype" THEN <<0>> ELSE IF how = "value" THEN <<2>> ELSE <<1, 3>>)
         /\ unit = 0 /\ unc = 0 /\ def = 0 /\ steps = 0
         /\ last = Call("Init", [s |-> <<>>, bad |-> 0, x |-> 0], "ok") /\ hist = <<>>
-Next == \/ \E s \in Seqs, bad \in 0..3 : Assign(s, bad)
+Next == \/ \E s \in Seqs, bad \in (0..3) \cup {12, 13} : Assign(s, bad)
         \/ Clear
         \/ \E u \in {0, 1, 2} : SetUnit(u)
         \/ \E u \in {0, 1, 2} : SetUnc(u)
